@@ -619,12 +619,12 @@ Proof.
     destruct (i2_q _ (inv_2 _ I) _ _ Hin) as (thx & Gx & Mx).
     assert (Hxt : x <> t) by (intros ->; congruence).
     destruct (ghost_exists _ _ _ GR Gx) as [gx Hgx].
-    exists x, gx, thx. cbn. split; [exact Hgx|]. split; [rewrite get_other by exact Hxt; gts; exact Gx|].
+    exists x, gx, thx. cbn [base set_base gth]. split; [exact Hgx|]. split; [rewrite get_other by exact Hxt; gts; exact Gx|].
     left. gts. rewrite E. split; [left; unfold lock_pc; auto|]. intros _.
     assert (I' : Inv (set_thread (setq s (QC c) r) t (set_main th (SigPush c ASUnlock x)))) by (eapply Inv_step; eauto).
     destruct (hand_exclusive _ t _ x (inv_2 _ I') Hth') as [C1 C2].
     { rewrite get_same in Hth' by (gts; congruence). inv Hth'. unfold th_hand. cbn. rewrite Nat.eqb_refl. cbn. lia. }
-    intros [C|(c0 & u0 & C)]; [Show; lia|].
+    intros [C|(c0 & u0 & C)]; [lia|].
     unfold ENQ in C2. rewrite get_other in C2 by exact Hxt. gts. rewrite Gx in C2.
     apply nenq_in in C. unfold nenq in C2. lia.
   - (* fewrite *)
